@@ -213,6 +213,13 @@ def rule_linker_map(ck):
             ok = "Address::Global" in a and ".place" in a and (".address" in a or ".address" in inner)
             d = f"parked at {a}"
         ck.ob("mpt.linker_map", "park_unmapped_breakpoints/parked-under-the-object-relative-address-of-its-place", ok, d, f.loc())
+        al = [c for c in f.calls() if re.search(r"HashMap::<K, V, S(, A)?>::insert$", c.name) and ".parked_aliases" in expr_str(expr_of(f, c.args[0]), 5)]
+        ck.ob("mpt.linker_map", "park_unmapped_breakpoints/keeps-the-address-the-user-knows", len(al) == 1 and f.dominates(rm[0].bb, al[0].bb) if rm else False, f"{len(al)} alias inserts", f.loc(), what="a parked breakpoint can no longer be removed by the address it was created with (DAP replaces breakpoint sets by address)")
+        rba = ck.anchor("debugger::breakpoint::BreakpointRegistry::remove_by_addr")
+        look = [c for c in rba.calls() if re.search(r"HashMap::<K, V, S(, A)?>::remove$", c.name) and ".parked_aliases" in expr_str(expr_of(rba, c.args[0]), 5)]
+        dis = [c for c in rba.calls() if re.search(r"HashMap::<K, V, S(, A)?>::remove$", c.name) and ".disabled_breakpoints" in expr_str(expr_of(rba, c.args[0]), 5)]
+        ok = len(look) == 1 and len(dis) == 1 and look[0].bb in rba.reach_from([0]) and dis[0].bb in rba.reach_from([look[0].bb])
+        ck.ob("mpt.linker_map", "remove_by_addr/resolves-the-alias-of-a-parked-breakpoint-first", ok, "", rba.loc())
     rdf = [f for p, f in prog.fns.items() if p.endswith("::refresh_deferred") and "Debugger" in p]
     if ck.ob("mpt.linker_map", "refresh_deferred/exists", len(rdf) == 1, "", ""):
         f = rdf[0]
